@@ -39,6 +39,8 @@ type c09Case struct {
 	Dedupe  bool
 	Path    string // rows | readers | write | copyrows
 	Pattern string
+
+	planReq string // request for the Lean mirror of the planner (set by c09Run)
 }
 
 func (c *c09Case) sortCols() int {
@@ -199,6 +201,7 @@ type c09ChunkReader struct {
 	rows    []parquet.Row
 	sizes   []int
 	eofLast bool // return io.EOF together with the last rows
+	zeroOK  bool // a size entry 0 answers (0, nil)
 }
 
 func (c *c09ChunkReader) ReadRows(dst []parquet.Row) (int, error) {
@@ -207,6 +210,10 @@ func (c *c09ChunkReader) ReadRows(dst []parquet.Row) (int, error) {
 	}
 	want := len(dst)
 	if len(c.sizes) > 0 {
+		if c.zeroOK && c.sizes[0] == 0 {
+			c.sizes = c.sizes[1:]
+			return 0, nil
+		}
 		want = max(1, c.sizes[0])
 		c.sizes = c.sizes[1:]
 	}
@@ -291,6 +298,94 @@ func c09Drain(c *c09Case, rr parquet.RowReader, limit int) ([]c09Row, [][2]int, 
 }
 
 // run one case on the real library, returns the emitted rows
+// fact probe: do the cut lookups of merge_refine.go refuse pages that hold some nulls
+// (proposed_fixes/C09_cut_lookups_nulls.diff)? The mirror of the planner takes it as a parameter.
+var c09StrictCuts = sync.OnceValue(func() string {
+	cols := []c09Col{{Opt: true}}
+	schema := c09Schema(cols)
+	mk := func(inp int32, lo, n, nulls int) []c09Row {
+		var rows []c09Row
+		for i := 0; i < n; i++ {
+			rows = append(rows, c09Row{K: [3]int64{int64(lo + i)}, Inp: inp, Seq: int32(i)})
+		}
+		for i := 0; i < nulls; i++ {
+			rows = append(rows, c09Row{Null: [3]bool{true}, Inp: inp, Seq: int32(n + i)})
+		}
+		return rows
+	}
+	c := &c09Case{Cols: cols, PageBuf: 256}
+	a, err1 := c09RowGroup(c, schema, mk(0, 3544, 2237, 44), false)
+	b, err2 := c09RowGroup(c, schema, mk(1, 43, 1736, 38), true)
+	if err1 != nil || err2 != nil {
+		return "0"
+	}
+	m, err := parquet.MergeRowGroups([]parquet.RowGroup{a, b}, schema)
+	if err != nil {
+		return "0"
+	}
+	if parquet.VerifMergeKind(m) == "merged" {
+		return "1"
+	}
+	return "0"
+})
+
+// page statistics of the sorting columns of a row group, in the format of the driver's merge.plan
+func c09TargetText(rg parquet.RowGroup, ncols int) (string, bool) {
+	var sb strings.Builder
+	fmt.Fprintf(&sb, "%d", rg.NumRows())
+	if rg.NumRows() == 0 {
+		return sb.String(), true
+	}
+	chunks := rg.ColumnChunks()
+	val := func(v parquet.Value) string {
+		if v.IsNull() {
+			return "n"
+		}
+		return strconv.FormatInt(v.Int64(), 10)
+	}
+	for j := 0; j < ncols; j++ {
+		ci, err := chunks[j].ColumnIndex()
+		if err != nil || ci == nil {
+			return "", false
+		}
+		sb.WriteByte('~')
+		if ci.NumPages() == 0 {
+			sb.WriteByte('-')
+		}
+		for p := 0; p < ci.NumPages(); p++ {
+			if p > 0 {
+				sb.WriteByte(',')
+			}
+			flag := "o"
+			if ci.NullPage(p) {
+				flag = "N"
+			} else if ci.NullCount(p) > 0 {
+				flag = "h"
+			}
+			if flag == "N" {
+				sb.WriteString("n_n_N")
+			} else {
+				fmt.Fprintf(&sb, "%s_%s_%s", val(ci.MinValue(p)), val(ci.MaxValue(p)), flag)
+			}
+		}
+		if j == 0 {
+			if oi, err := chunks[0].OffsetIndex(); err == nil && oi != nil {
+				sb.WriteString("~F")
+				if oi.NumPages() == 0 {
+					sb.WriteByte('-')
+				}
+				for p := 0; p < oi.NumPages(); p++ {
+					if p > 0 {
+						sb.WriteByte(',')
+					}
+					fmt.Fprintf(&sb, "%d", oi.FirstRowIndex(p))
+				}
+			}
+		}
+	}
+	return sb.String(), true
+}
+
 func c09Run(c *c09Case) (out []c09Row, kind string, calls [][2]int, plan string, err error) {
 	defer func() {
 		if p := recover(); p != nil {
@@ -310,6 +405,24 @@ func c09Run(c *c09Case) (out []c09Row, kind string, calls [][2]int, plan string,
 		total += len(in)
 	}
 	msort := c09Sorting(c.Cols, c.sortCols())
+	c.planReq = ""
+	if !c.Dedupe && c.Path != "readers" {
+		parts := make([]string, len(rgs))
+		ok := true
+		for i, rg := range rgs {
+			parts[i], ok = c09TargetText(rg, c.sortCols())
+			if !ok {
+				break
+			}
+		}
+		if ok {
+			ts := "."
+			if len(parts) > 0 {
+				ts = strings.Join(parts, "/")
+			}
+			c.planReq = "merge.plan " + c09StrictCuts() + " " + c09SpecText(c.Cols[:c.sortCols()]) + " " + ts
+		}
+	}
 	if c.Path == "readers" {
 		readers := make([]parquet.RowReader, len(rgs))
 		for i, rg := range rgs {
@@ -444,6 +557,9 @@ func c09Oracle(c *c09Case, out []c09Row) (key, what string) {
 			if nullInvolved && c.Pattern == "fixed" {
 				return "nullable-key-ranges-ignore-nulls", fmt.Sprintf("output not sorted: row %d (%s) precedes row %d (%s); a null key is out of place (F12: row-group key ranges computed from non-null page bounds only)", i-1, out[i-1].keyText(n), i, out[i].keyText(n))
 			}
+			if nullInvolved && c.Path != "readers" && !c.Dedupe && len(out) >= parquet.VerifMinStreamedRegionRows && c09StrictCuts() == "0" {
+				return "nullable-key-cuts-ignore-nulls", fmt.Sprintf("output not sorted: row %d (%s) precedes row %d (%s); a null key is out of place (refinement cuts computed from the non-null bounds of a page that also holds nulls)", i-1, out[i-1].keyText(n), i, out[i].keyText(n))
+			}
 			if nullInvolved {
 				return "unsorted-null-out-of-place", fmt.Sprintf("output not sorted: row %d (%s) precedes row %d (%s); a null key is out of place", i-1, out[i-1].keyText(n), i, out[i].keyText(n))
 			}
@@ -543,12 +659,24 @@ func c09Check(ctx *core.Ctx, c *c09Case, p *c09Pending) {
 			}
 		})
 	}
+	// L2: the whole plan (ranges over several pages, segments, refinement cuts) against the mirror
+	if p != nil && err == nil && c.planReq != "" {
+		req, want := c.planReq, "ok "+plan
+		ctx.Hist("l2-plan", kind)
+		p.reqs = append(p.reqs, req)
+		p.pend = append(p.pend, func(ans string) {
+			if ans != want {
+				ctx.Fail("L2", "plan-mirror plan="+kind, "plan of MergeRowGroups (segments, refinement slices) differs from the Lean mirror of the planner", map[string]any{
+					"case": canon[:min(len(canon), 3000)], "request": req[:min(len(req), 6000)], "impl": want, "model": ans})
+			}
+		})
+	}
 	if err != nil {
 		ctx.Fail("L1", "error "+c09ErrClass(err)+sig, "merge fails: "+err.Error(), detail())
 		return
 	}
 	if key, what := c09Oracle(c, out); key != "" {
-		if key != "nullable-key-ranges-ignore-nulls" {
+		if key != "nullable-key-ranges-ignore-nulls" && key != "nullable-key-cuts-ignore-nulls" {
 			key += sig + " plan=" + kind
 		}
 		ctx.Fail("L1", key, what, detail())
@@ -1082,6 +1210,367 @@ func c09GenL2(r *rand.Rand) *c09L2Case {
 	return c
 }
 
+// ---------------------------------------------------------------- L2: compound nullable keys (comparator chain)
+
+func c09SpecText(cols []c09Col) string {
+	parts := make([]string, len(cols))
+	for i, col := range cols {
+		d, n := "a", "l"
+		if col.Desc {
+			d = "d"
+		}
+		if col.NF {
+			n = "f"
+		}
+		parts[i] = d + n
+	}
+	return strings.Join(parts, ",")
+}
+
+type c09L2CCase struct {
+	cols    []c09Col
+	inputs  [][]c09Row
+	refills [][]int
+	batches []int
+}
+
+func (c *c09L2CCase) text() string {
+	n := len(c.cols)
+	return fmt.Sprintf("specs=%s opt=%v inputs=%s refills=%s batches=%v", c09SpecText(c.cols), c.cols,
+		c09Lists(c.inputs, func(r c09Row) string { return r.keyText(n) }), c09Lists(c.refills, strconv.Itoa), c.batches)
+}
+
+func c09GenL2C(r *rand.Rand) *c09L2CCase {
+	c := &c09L2CCase{}
+	ncols := 1 + r.Intn(3)
+	for j := 0; j < ncols; j++ {
+		col := c09Col{Desc: r.Intn(3) == 0}
+		if r.Intn(2) == 0 {
+			col.Opt, col.NF = true, r.Intn(2) == 0
+		}
+		c.cols = append(c.cols, col)
+	}
+	k := 2 + r.Intn(5)
+	lens := make([]int, k)
+	for i := range lens {
+		lens[i] = []int{0, 1, 2, 5, 23, 24, 25, 40, 60}[r.Intn(9)]
+	}
+	c.inputs = c09GenInputs(r, c.cols, k, c09Patterns[r.Intn(len(c09Patterns))], lens, []int{2, 5, 20}[r.Intn(3)])
+	for i := 0; i < k; i++ {
+		var sizes []int
+		for j := r.Intn(6); j > 0; j-- {
+			sizes = append(sizes, []int{1, 2, 5, 23, 24, 25, 100}[r.Intn(7)])
+		}
+		c.refills = append(c.refills, sizes)
+	}
+	c.batches = c09GenBatches(r)
+	return c
+}
+
+func c09L2CCheck(ctx *core.Ctx, c *c09L2CCase, p *c09Pending) {
+	text := c.text()
+	ctx.Case("l2c "+text, len(c.inputs) >= 2)
+	ctx.Hist("l2c-columns", strconv.Itoa(len(c.cols)))
+	var req, want string
+	var rows []c09Row
+	err := func() (err error) {
+		defer func() {
+			if q := recover(); q != nil {
+				err = fmt.Errorf("panic: %v", q)
+			}
+		}()
+		schema := c09Schema(c.cols)
+		cmp := schema.Comparator(c09Sorting(c.cols, len(c.cols))...)
+		readers := make([]parquet.RowReader, len(c.inputs))
+		total := 0
+		for i, in := range c.inputs {
+			rs := make([]parquet.Row, len(in))
+			for j, row := range in {
+				rs[j] = c09ToRow(c.cols, row)
+			}
+			readers[i] = &c09ChunkReader{rows: rs, sizes: append([]int(nil), c.refills[i]...)}
+			total += len(in)
+		}
+		rr := parquet.MergeRowReaders(readers, cmp)
+		maxb := 1
+		for _, b := range c.batches {
+			maxb = max(maxb, b)
+		}
+		buf := make([]parquet.Row, maxb)
+		var used, streaks []int
+		var batches []string
+		for i := 0; ; i++ {
+			b := c.batches[i%len(c.batches)]
+			n, e := rr.ReadRows(buf[:b])
+			used = append(used, b)
+			streaks = append(streaks, parquet.VerifMergeStreak(rr))
+			var sb strings.Builder
+			if n == 0 {
+				sb.WriteByte('-')
+			}
+			for j, row := range buf[:max(n, 0)] {
+				rw, derr := c09FromRow(len(c.cols), row)
+				if derr != nil {
+					return derr
+				}
+				rows = append(rows, rw)
+				if j > 0 {
+					sb.WriteByte(',')
+				}
+				fmt.Fprintf(&sb, "%d:%d", rw.Inp, rw.Seq)
+			}
+			batches = append(batches, sb.String())
+			if e == io.EOF {
+				break
+			}
+			if e != nil {
+				return e
+			}
+			if len(used) > 3*total+16 {
+				return errors.New("no progress")
+			}
+		}
+		n := len(c.cols)
+		req = fmt.Sprintf("merge.runc %s %s %s %s", c09SpecText(c.cols), c09Lists(c.inputs, func(r c09Row) string { return r.keyText(n) }),
+			core.JoinInts(used), c09Lists(c.refills, strconv.Itoa))
+		want = "ok 1 " + strings.Join(batches, "|") + " " + core.JoinInts(streaks)
+		return nil
+	}()
+	if err != nil {
+		ctx.Fail("L1", "error "+c09ErrClass(err)+" path=chunked-readers-compound", "MergeRowReaders fails: "+err.Error(), map[string]any{"case": text})
+		return
+	}
+	oc := &c09Case{Cols: c.cols, MCols: len(c.cols), Path: "readers", Inputs: c.inputs}
+	if key, what := c09Oracle(oc, rows); key != "" {
+		ctx.Fail("L1", key+" path=chunked-readers-compound", what, map[string]any{"case": text, "output": want})
+	}
+	p.reqs = append(p.reqs, req)
+	p.pend = append(p.pend, func(ans string) {
+		if ans != want {
+			ctx.Fail("L2", "merge-mirror-compound-keys", "MergeRowReaders over nullable / descending / multi-column keys differs from the Lean mirror run on cmpRows ranks", map[string]any{
+				"case": text, "request": req, "impl": want, "model": ans})
+		}
+	})
+}
+
+// the comparator chain itself: schema.Comparator against cmpRows
+func c09CmpChecks(ctx *core.Ctx, r *rand.Rand, d *drv.Driver, p *c09Pending, n int) {
+	for i := 0; i < n; i++ {
+		ncols := 1 + r.Intn(3)
+		var cols []c09Col
+		for j := 0; j < ncols; j++ {
+			col := c09Col{Desc: r.Intn(2) == 0}
+			if r.Intn(3) != 0 {
+				col.Opt, col.NF = true, r.Intn(2) == 0
+			}
+			cols = append(cols, col)
+		}
+		mk := func() c09Row {
+			var row c09Row
+			for j, col := range cols {
+				if col.Opt && r.Intn(3) == 0 {
+					row.Null[j] = true
+				} else {
+					row.K[j] = int64(r.Intn(4)) - 1
+					if r.Intn(8) == 0 {
+						row.K[j] = []int64{-1 << 63, 1<<63 - 1, -1 << 31, 1 << 31}[r.Intn(4)]
+					}
+				}
+			}
+			return row
+		}
+		a, b := mk(), mk()
+		schema := c09Schema(cols)
+		cmp := schema.Comparator(c09Sorting(cols, ncols)...)
+		got := cmp(c09ToRow(cols, a), c09ToRow(cols, b))
+		sign := func(x int) int {
+			if x < 0 {
+				return -1
+			} else if x > 0 {
+				return 1
+			}
+			return 0
+		}
+		canon := fmt.Sprintf("merge.cmp %s %s %s", c09SpecText(cols), a.keyText(ncols), b.keyText(ncols))
+		ctx.Case(canon+fmt.Sprint(cols), ncols >= 2)
+		if want := c09Cmp(cols, ncols, a, b); sign(got) != want {
+			ctx.Fail("L1", "comparator-order", "schema.Comparator orders two rows against the declared sorting columns", map[string]any{"case": canon, "cols": fmt.Sprint(cols), "impl": got, "declared": want})
+		}
+		p.reqs = append(p.reqs, canon)
+		p.pend = append(p.pend, func(ans string) {
+			m, err := strconv.Atoi(strings.TrimPrefix(ans, "ok "))
+			if err != nil || sign(m) != sign(got) {
+				ctx.Fail("L2", "comparator-mirror", "schema.Comparator differs in sign from the Lean cmpRows", map[string]any{"case": canon, "cols": fmt.Sprint(cols), "impl": got, "model": ans})
+			}
+		})
+		p.flush(ctx, d, false)
+	}
+}
+
+// ---------------------------------------------------------------- sources answering (0, nil)
+
+// A RowReader may return fewer rows than requested with a nil error; zero rows is the extreme.
+// bufferedRowReader.read takes (0, nil) for a refill and head() then re-reads the first row of the
+// previous fill. Outside the property as stated (sorted inputs, any batch size): recorded as an
+// observation; the two-reader behaviour is compared with the as-is mirror (MergeZero.lean).
+func c09ZeroChecks(ctx *core.Ctx, r *rand.Rand, d *drv.Driver, p *c09Pending, n int) {
+	// fact probe: does bufferedRowReader.read retry on (0, nil)? (proposed_fixes/C09_zero_row_read.diff)
+	// If it does, (0, nil) answers are invisible: the run must equal the main mirror without the zero
+	// entries and the oracle applies at L1; if not, the as-is mirror (MergeZero.lean) is compared.
+	retries := func() (ok bool) {
+		defer func() {
+			if recover() != nil {
+				ok = false
+			}
+		}()
+		mk := func(keys []int64, inp int32, sizes []int) parquet.RowReader {
+			rs := make([]parquet.Row, len(keys))
+			for s, key := range keys {
+				rs[s] = c09ToRow(c09L2Cols, c09Row{K: [3]int64{key}, Inp: inp, Seq: int32(s)})
+			}
+			return &c09ChunkReader{rows: rs, sizes: sizes, zeroOK: true}
+		}
+		rr := parquet.MergeRowReaders([]parquet.RowReader{mk([]int64{1, 3, 5, 7}, 0, []int{2, 0, 2}), mk([]int64{2, 4, 6, 8}, 1, []int{2, 2, 2})}, c09L2Compare)
+		buf := make([]parquet.Row, 10)
+		var got []int64
+		for calls := 0; calls < 20; calls++ {
+			m, e := rr.ReadRows(buf)
+			for _, row := range buf[:m] {
+				got = append(got, row[0].Int64())
+			}
+			if e != nil {
+				break
+			}
+		}
+		return fmt.Sprint(got) == "[1 2 3 4 5 6 7 8]"
+	}()
+	ctx.Hist("zero-reads-retried-by-library", strconv.FormatBool(retries))
+	for i := 0; i < n; i++ {
+		k := 2
+		if i%4 == 3 {
+			k = 3
+		}
+		c := &c09L2Case{}
+		for j := 0; j < k; j++ {
+			c.keys = append(c.keys, c09SortedKeys(r, 1+r.Intn(30), 0, 20))
+			var sizes []int
+			for x := 1 + r.Intn(8); x > 0; x-- {
+				sizes = append(sizes, []int{0, 0, 1, 2, 3, 24}[r.Intn(6)])
+			}
+			if k == 3 && j == 0 && r.Intn(2) == 0 {
+				sizes[0] = 0
+			}
+			c.refills = append(c.refills, sizes)
+		}
+		c.batches = []int{1 + r.Intn(12)}
+		text := "zero " + c.text()
+		ctx.Case(text, true)
+		ctx.Hist("zero-reads", strconv.Itoa(k))
+		var rows []c09Row
+		var batches []string
+		var used []int
+		err := func() (err error) {
+			defer func() {
+				if q := recover(); q != nil {
+					err = fmt.Errorf("panic: %v", q)
+				}
+			}()
+			readers := make([]parquet.RowReader, k)
+			total := 0
+			for j, ks := range c.keys {
+				rs := make([]parquet.Row, len(ks))
+				for s, key := range ks {
+					rs[s] = c09ToRow(c09L2Cols, c09Row{K: [3]int64{key}, Inp: int32(j), Seq: int32(s)})
+				}
+				readers[j] = &c09ChunkReader{rows: rs, sizes: append([]int(nil), c.refills[j]...), zeroOK: true}
+				total += len(ks)
+			}
+			rr := parquet.MergeRowReaders(readers, c09L2Compare)
+			buf := make([]parquet.Row, c.batches[0])
+			for calls := 0; calls < 4*total+40; calls++ {
+				m, e := rr.ReadRows(buf)
+				used = append(used, len(buf))
+				var sb strings.Builder
+				if m == 0 {
+					sb.WriteByte('-')
+				}
+				for x, row := range buf[:m] {
+					rw, derr := c09FromRow(1, row)
+					if derr != nil {
+						return derr
+					}
+					rows = append(rows, rw)
+					if x > 0 {
+						sb.WriteByte(',')
+					}
+					fmt.Fprintf(&sb, "%d:%d", rw.Inp, rw.Seq)
+				}
+				batches = append(batches, sb.String())
+				if e == io.EOF {
+					return nil
+				}
+				if e != nil {
+					return e
+				}
+			}
+			return errors.New("no io.EOF")
+		}()
+		if err != nil {
+			if retries {
+				ctx.Fail("L1", "zero-row-read error "+c09ErrClass(err), "MergeRowReaders over a source that answers (0, nil): "+err.Error(), map[string]any{"case": text})
+			} else {
+				ctx.Observe(fmt.Sprintf("zero-row-read readers=%d %s", min(k, 3), c09ErrClass(err)), "MergeRowReaders over a source that answers (0, nil): "+err.Error(), map[string]any{"case": text})
+			}
+			continue
+		}
+		oc := &c09Case{Cols: c09L2Cols, MCols: 1, Path: "readers"}
+		for j, ks := range c.keys {
+			in := make([]c09Row, len(ks))
+			for s, key := range ks {
+				in[s] = c09Row{K: [3]int64{key}, Inp: int32(j), Seq: int32(s)}
+			}
+			oc.Inputs = append(oc.Inputs, in)
+		}
+		if key, what := c09Oracle(oc, rows); key != "" {
+			if retries {
+				ctx.Fail("L1", "zero-row-read "+key, "MergeRowReaders over a source that answers (0, nil): "+what, map[string]any{"case": text, "output": strings.Join(batches, "|")})
+			} else {
+				ctx.Observe(fmt.Sprintf("zero-row-read readers=%d %s", min(k, 3), key), "MergeRowReaders over a source that answers (0, nil): "+what, map[string]any{"case": text, "output": strings.Join(batches, "|")})
+			}
+		}
+		if retries {
+			// the library skips (0, nil) answers: same as the main mirror without the zero entries
+			nz := make([][]int, len(c.refills))
+			for j, sz := range c.refills {
+				for _, x := range sz {
+					if x != 0 {
+						nz[j] = append(nz[j], x)
+					}
+				}
+			}
+			req := fmt.Sprintf("merge.run %s %s %s", c09Lists(c.keys, func(x int64) string { return strconv.FormatInt(x, 10) }), core.JoinInts(used), c09Lists(nz, strconv.Itoa))
+			want := "ok 1 " + strings.Join(batches, "|")
+			p.reqs = append(p.reqs, req)
+			p.pend = append(p.pend, func(ans string) {
+				if i := strings.LastIndexByte(ans, ' '); i < 0 || ans[:i] != want {
+					ctx.Fail("L2", "merge-zero-read-skipped-mirror", "MergeRowReaders over (0, nil) sources differs from the mirror run without the zero entries", map[string]any{"case": text, "request": req, "impl": want, "model": ans})
+				}
+			})
+			p.flush(ctx, d, false)
+		} else if k == 2 {
+			req := fmt.Sprintf("merge.runz %s %s %s", c09Lists(c.keys, func(x int64) string { return strconv.FormatInt(x, 10) }), core.JoinInts(used), c09Lists(c.refills, strconv.Itoa))
+			want := "ok " + strings.Join(batches, "|")
+			p.reqs = append(p.reqs, req)
+			p.pend = append(p.pend, func(ans string) {
+				if ans != want {
+					ctx.Fail("L2", "merge2-zero-read-mirror", "mergedRowReader2 over (0, nil) sources differs from the as-is Lean mirror", map[string]any{"case": text, "request": req, "impl": want, "model": ans})
+				}
+			})
+			p.flush(ctx, d, false)
+		}
+	}
+}
+
 // ---------------------------------------------------------------- L2: runLength and dedupe
 
 func c09RunLengthChecks(ctx *core.Ctx, r *rand.Rand, d *drv.Driver, p *c09Pending, n int) {
@@ -1203,6 +1692,23 @@ func RunC09(ctx *core.Ctx) {
 		{Cols: []c09Col{{Opt: true}}, MCols: 1, Storage: "buffer", PageBuf: 4096, Batches: []int{10}, Path: "rows", Pattern: "fixed",
 			Inputs: [][]c09Row{{{K: [3]int64{10}}, {Null: [3]bool{true}, Seq: 1}}, {{K: [3]int64{17}, Inp: 1}, {K: [3]int64{17}, Inp: 1, Seq: 1}, {K: [3]int64{18}, Inp: 1, Seq: 2}}}},
 	}
+	// the minimal input of the cut-lookup defect (mixed page with nulls), deterministic as well
+	{
+		mk := func(inp int32, lo, n, nulls int) []c09Row {
+			var rows []c09Row
+			for i := 0; i < n; i++ {
+				rows = append(rows, c09Row{K: [3]int64{int64(lo + i)}, Inp: inp, Seq: int32(i)})
+			}
+			for i := 0; i < nulls; i++ {
+				rows = append(rows, c09Row{Null: [3]bool{true}, Inp: inp, Seq: int32(n + i)})
+			}
+			return rows
+		}
+		for _, path := range []string{"rows", "write"} {
+			fixed = append(fixed, &c09Case{Cols: []c09Col{{Opt: true}}, MCols: 0, Storage: "mixed", PageBuf: 256, Batches: []int{100}, Path: path,
+				Pattern: "fixed-cuts", Inputs: [][]c09Row{mk(0, 3544, 2237, 44), mk(1, 43, 1736, 38)}})
+		}
+	}
 	for _, c := range fixed {
 		c09Check(ctx, c, nil)
 	}
@@ -1213,6 +1719,7 @@ func RunC09(ctx *core.Ctx) {
 	nRefine := ctx.Scale(40, 600)
 	nCompound := ctx.Scale(70, 1000)
 	nL2 := ctx.Scale(6000, 150000)
+	nL2C := ctx.Scale(2500, 50000)
 	for w := 0; w < workers; w++ {
 		wg.Add(1)
 		go func(w int) {
@@ -1245,6 +1752,20 @@ func RunC09(ctx *core.Ctx) {
 				p.flush(ctx, d, false)
 			}
 			p.flush(ctx, d, true)
+			r3 := ctx.Rand(fmt.Sprintf("c09-l2c-%d", w))
+			for i := w; i < nL2C; i += workers {
+				c09L2CCheck(ctx, c09GenL2C(r3), p)
+				p.flush(ctx, d, false)
+			}
+			p.flush(ctx, d, true)
+			if w == 2 {
+				c09ZeroChecks(ctx, ctx.Rand("c09-zero"), d, p, ctx.Scale(3000, 40000))
+				p.flush(ctx, d, true)
+			}
+			if w == 1 {
+				c09CmpChecks(ctx, ctx.Rand("c09-cmp"), d, p, ctx.Scale(20000, 300000))
+				p.flush(ctx, d, true)
+			}
 			if w == 0 {
 				c09RunLengthChecks(ctx, ctx.Rand("c09-runlength"), d, p, ctx.Scale(20000, 300000))
 				p.flush(ctx, d, true)
